@@ -11,7 +11,7 @@ def scenarios(seed, tier, failed):
     for ns in (1, 0):
         yield {'kind': 'chart', 'parent': [-1, 0, 1], 'init': [None, None, None], 'react': {'0': {}, '1': {}, '2': {}},
                'start': 2, 'events': [], 'host': 'HsmEventProcessor', 'spy': False, 'exit_handled': [True] * 3,
-               'entry_handled': [True] * 3, 'none_super': ns, 'malformed': ['none-super', ns], 'timeout': 5}
+               'entry_handled': [True] * 3, 'none_super': ns, 'malformed': ['none-super', ns], 'timeout': 2}
     # a later event leads into a state that answers the parent probe with None: the target itself, its parent, or a
     # state further out (st0 > st1 > st2 > st3, the source st4 sits beside st0)
     for f in (3, 2, 1, 0):
@@ -21,7 +21,7 @@ def scenarios(seed, tier, failed):
             yield {'kind': 'chart', 'parent': [-1, 0, 1, 2, -1], 'init': [None] * 5,
                    'react': {'0': {}, '1': {}, '2': {}, '3': {}, '4': {'S0': ['tran', tgt]}},
                    'start': 4, 'events': ['S0'], 'host': 'HsmEventProcessor', 'spy': False, 'exit_handled': [True] * 5,
-                   'entry_handled': [True] * 5, 'none_super': f, 'malformed': ['none-super-later', f], 'timeout': 5}
+                   'entry_handled': [True] * 5, 'none_super': f, 'malformed': ['none-super-later', f], 'timeout': 2}
     rnd = random.Random(seed + 24)
     for k in range(300 if tier == 'quick' else 10000):
         sc = charts.gen_scenario(rnd, n=rnd.randint(2, 7), nevents=rnd.randint(2, 6))
@@ -35,7 +35,7 @@ def scenarios(seed, tier, failed):
                 continue
             sc['none_super'] = rnd.choice(later)
             sc['malformed'] = [kind, sc['none_super']]
-            sc['timeout'] = 5
+            sc['timeout'] = 2
             yield sc
             continue
         if kind == 'none-super':
@@ -43,7 +43,7 @@ def scenarios(seed, tier, failed):
             sc['none_super'] = rnd.choice([x for x in charts.ancestors(sc['parent'], sc['start']) if x != -1])
             sc['malformed'] = [kind, sc['none_super']]
             sc['events'] = []
-            sc['timeout'] = 5
+            sc['timeout'] = 2
             yield sc
             continue
         if kind == 'outside':
@@ -56,7 +56,7 @@ def scenarios(seed, tier, failed):
         else:
             sc['react'][str(s)]['S0'] = ['none', None]
         sc['malformed'] = [kind, s]
-        sc['timeout'] = 5
+        sc['timeout'] = 2
         yield sc
 
 
